@@ -22,6 +22,7 @@ From Coq Require Import ZArith List Bool Reals Lra. Import ListNotations.
 From PV Require Import Num NumR model.Geom proofs.LatticeFacts proofs.SiteFacts proofs.OverlapFacts proofs.ConvexFacts proofs.ShapeFacts proofs.EnclosedFacts proofs.PackingFacts proofs.PolygonFacts proofs.RadiusFacts proofs.PolygonPacking proofs.NoNesting.
 From PV Require Import gen.GenFns proofs.SourceFacts.
 From PV Require Import proofs.SourceCorollaries.
+From PV Require Import model.Iter proofs.SearchFacts.
 
 Theorem C01_scored_disc_packing_has_no_overlap :
   forall (st : pstateR) (l : list discR), wf_state st -> rigid_inputs st -> p_shape NumR st =
@@ -287,4 +288,10 @@ Theorem C01_source_shell_count_suffices :
     (x1 - x2) * (x1 - x2) + (y1 - y2) * (y1 - y2))%R.
 Proof. exact source_shell_count_suffices. Qed.
 Print Assumptions C01_source_shell_count_suffices.
+
+
+Theorem C01_check_intersection_is_source :
+  forall (NN : Num) (st : pstate NN), gen_check_intersection NN st = check_intersection NN st.
+Proof. exact check_intersection_is_source. Qed.
+Print Assumptions C01_check_intersection_is_source.
 
